@@ -31,6 +31,9 @@ type c07Case struct {
 	// Probe > 0: before op Probe a dry-run clone (no buffer) is made, switched to the opposite widths and
 	// discarded (measuring a code variant); the emitter in use keeps its own widths
 	Probe int `json:"probe,omitempty"`
+	// Short > 0: the target buffer is this many bytes smaller than the program; the sequence the assembler accepts
+	// ends before the first call that no longer fits (that call must be refused), and that prefix is what the CPU runs
+	Short int `json:"short,omitempty"`
 }
 
 type c07Result struct {
@@ -42,8 +45,15 @@ type c07Result struct {
 // errSkip marks a case outside the property's domain (self-modifying program ...).
 func c07Check(c c07Case, res *c07Result) error {
 	capacity := needOf(c.Ops) + 4
+	if c.Short > 0 {
+		capacity = needOf(c.Ops) - c.Short
+		if capacity < 0 {
+			capacity = 0
+		}
+	}
 	p := &emPair{em: asm.NewEmitter(make([]byte, capacity), false), m: asmcat.NewModel(capacity, false, false)}
 	var initFlags byte
+	var endM16, endX16, ended bool
 	emitted := false
 	orig := p.em
 	useClone := c.CloneTo > c.CloneFrom && c.CloneTo <= len(c.Ops)
@@ -69,7 +79,19 @@ func c07Check(c c07Case, res *c07Result) error {
 				return err
 			}
 		}
+		if c.Short > 0 && o.Need() > 0 && p.m.Len()+o.Need() > capacity {
+			// the first call that does not fit must be refused (step checks that, and that nothing else changed); the sequence
+			// the assembler accepts ends before it, with the widths tracked at that point
+			endM16, endX16, ended = p.em.IsM16bit(), p.em.IsX16bit(), true
+			if err := p.step(i, o); err != nil {
+				return err
+			}
+			break
+		}
 		if c.Probe > 0 && i == c.Probe {
+			if byte(p.em.Flags()) != p.m.Flags {
+				return fmt.Errorf("before op %d: the emitter tracks flags %02x, want %02x", i, byte(p.em.Flags()), p.m.Flags)
+			}
 			var pan interface{}
 			func() {
 				defer func() { pan = recover() }()
@@ -180,7 +202,10 @@ func c07Check(c c07Case, res *c07Result) error {
 			}
 		}
 		r := cpu.Raw()
-		wantM, wantX := b2u(!p.em.IsM16bit()), b2u(!p.em.IsX16bit())
+		if !ended {
+			endM16, endX16 = p.em.IsM16bit(), p.em.IsX16bit()
+		}
+		wantM, wantX := b2u(!endM16), b2u(!endX16)
 		if r.M != wantM || r.X != wantX {
 			return fmt.Errorf("%s ends with m=%d x=%d but the assembler tracks m=%d x=%d (8-bit = 1)", cpu.Name(), r.M, r.X, wantM, wantX)
 		}
@@ -325,6 +350,11 @@ func TestC07(t *testing.T) {
 					if c.CloneTo <= c.CloneFrom {
 						c.CloneFrom, c.CloneTo = 0, 0
 					}
+				}
+				if rapid.IntRange(0, 7).Draw(t, "short-buffer") == 0 {
+					c.Short = rapid.IntRange(1, 6).Draw(t, "short-by")
+					c.CloneFrom, c.CloneTo = 0, 0
+					ev.Class("target-buffer-smaller-than-the-program(accepted-prefix-runs)")
 				}
 				if len(c.Ops) > 1 && rapid.IntRange(0, 3).Draw(t, "probe-clone") == 0 {
 					c.Probe = rapid.IntRange(1, len(c.Ops)-1).Draw(t, "probe-at")
